@@ -111,3 +111,7 @@ chk("C42", "E1", "exploration",
     "deterministic simulation: two real iroh Endpoints over SimNet (loss, duplication, reordering, delay) on a virtual clock with scripted hook lists on both sides; per-dial protocol names attribute every hook call; packet log of the network is the no-handshake oracle",
     "Seeded exploration of hook lists (0..3 per side, per-call accept/reject scripts with close codes) and dials (normal, to one's own id, empty protocol name); oracle per dial: hooks of one kind are consulted in list order, each once, stopping at the first reject; a before_connect reject means not established, zero packets sent by the dialer and no after_handshake call; a side holds an established connection only if all its hooks accepted; a listener-side after_handshake reject is observed by the dialer as an application close with exactly the hook's code; all-accepting lists establish (no loss); self-dial and empty protocol name always fail.",
     "ring's TLS randomness is not seeded. The close-code and must-establish clauses are only asserted in runs without packet loss.")
+chk("C01", "E1", "exploration",
+    "deterministic simulation with an active adversary: real iroh Endpoints (real noq, real rustls with iroh's raw-public-key verifiers, resolver and name encoding) on the seeded SimNet; impostor iroh endpoints behind hijacked / competing addresses, and a bare noq::Endpoint on the same network whose hand-written rustls resolver, signer and verifiers forge the identity; every forgery has an honest control that really holds the key",
+    "Seeded exploration of (network faults x scenario): the victim dials id K and K's address leads to K's holder, to an endpoint holding another key, to both, or to a raw QUIC server presenting another key's raw public key, K's public key signed by another key, garbage signatures (0..128 bytes), K's key plus an extra chain element (either order), an X.509-typed certificate or one of five tampered SubjectPublicKeyInfo encodings around K's key bytes; symmetrically a raw QUIC client with the same forgeries (or no certificate) dials an iroh endpoint. Oracle: connect(K) completes only against a peer holding K's secret key; every established connection's remote_id, on both sides, is a key the other side really holds; the honest controls do connect.",
+    "The adversary is limited to what a rustls/noq peer with custom resolver/signer/verifier can emit. The TLS-name encode/decode clause is a pure function and only exercised incidentally (each dial encodes, the verifier decodes). ring's TLS randomness is not seeded.")
